@@ -1,11 +1,12 @@
-"""C02 — sifting commutes with rescaling, sign flip and time reversal (PHASE 1: extrema / envelope layer proved;
-get_next_imf / sift / mask_sift checked as instances on the implementation, theorems pending the Sift / Mask models)."""
+"""C02 — sifting commutes with rescaling, sign flip and time reversal: extrema / envelope layer (EmdModel.Extrema),
+single-IMF extraction and classic sift (EmdModel.Sift), masked sift with ratio amplitudes (EmdModel.Mask)."""
 import math
 
 import numpy as np
 
 from common.framework import Failure, ImplError, Stream
 from props import _c02 as K
+from props import _c02corr as C
 from props import _ext
 from props import c05
 
@@ -16,10 +17,18 @@ REQUIRED = ['C02.findPeaks_smul_pos', 'C02.findPeaks_smul_neg', 'C02.findPeaks_r
             'C02.loopTest_mirror_symmetric', 'C02.loopTest_fractional_asymmetric_witness', 'C02.padOdd_mirror_symmetric',
             'C02.paddedExtrema_reverse', 'C02.paddedExtrema_reverse_parabolic_witness',
             'C02.interpEnvelope_smul_pos', 'C02.interpEnvelope_smul_neg', 'C02.interpEnvelope_smul',
-            'C02.interpEnvelope_reverse', 'C02.envelope_mean_smul']
-TRUSTED = ['PHASE 1: the theorems cover _find_extrema / get_padded_extrema / interp_envelope (model EmdModel.Extrema, tied to the code by '
-           'the C05 ops PADEXT / ENV, here run on c*x and on reversed x); get_next_imf, sift and mask_sift are covered by the metamorphic '
-           'instance checks on the implementation only, until the Sift / Mask models are merged',
+            'C02.interpEnvelope_reverse', 'C02.envelope_mean_smul',
+            'C02.sdMetric_smul', 'C02.rillingStop_smul', 'C02.fixedStop_indep',
+            'C02.getNextImf_smul', 'C02.getNextImf_smul_envelope', 'C02.getNextImf_reverse', 'C02.getNextImf_reverse_envelope',
+            'C02.sift_smul', 'C02.sift_smul_thr_silent', 'C02.sift_smul_envelope', 'C02.sift_reverse', 'C02.sift_reverse_envelope',
+            'C02.maskSift_ratio_smul_pos', 'C02.maskSift_ratio_smul_neg']
+TRUSTED = ['the theorems are about the models EmdModel.Extrema (tied to the code by the C05 ops PADEXT / ENV, here run on c*x and on reversed x), '
+           'EmdModel.Sift (C04 / C01 ops GNI / SIFT) and EmdModel.Mask (C07 op MASKSIFT), the latter three run on x, on c*x with sift_thresh '
+           'scaled by |c| and on reversed x; the model answers for the transformed inputs are compared with the implementation AND with the '
+           'transformed model answer for x (exact rational equality for +-2^k). Oracle tables (envelopes of the real interp_envelope on each '
+           'reference iterate, real get_next_imf on each residual / masked signal, np.std, energy dB) are recorded on the same run',
+           'the model of get_next_imf takes envelopes as an oracle; the instance Sift.extEnv (Extrema-model envelopes) used by the *_envelope theorems '
+           'is tied to the code through the ENV op only (values), the None-condition through C01.env_none / C05',
            'bit-for-bit equality for c = +-2^k is a statement about IEEE arithmetic: the theorems give exact equality in Q for every c != 0; '
            'bit-exactness is decided by the instance check only (np.array_equal, no tolerance, no skipping except the absolute sift_thresh band)',
            'near-tie guard: decision margins of the base run are measured by replaying the iterations in the harness with the public '
@@ -31,6 +40,10 @@ ASSUMPTIONS = ['Homogeneous: scipy splrep/splev, pchip, PchipInterpolator throug
                'through (locs, mags), c of either sign (validator interp_homogeneous: bit-exact for +-2^k, 1e-9 for real c)',
                'Reversible: mirroring the knots about (n-1)/2 mirrors the interpolant (validator interp_reversible, 1e-9)',
                'np.std(c*x) = |c|*np.std(x) (validator std_abs_homogeneous; used by the mask-sift law)',
+               'EnergySmul / EnergyRev: the energy difference in dB is a ratio of energies (scale-free, direction-free); in floats the flag decision '
+               'is guarded by its margin (energy_stop)',
+               'ShiftClosed: the mask of phase i + p/2 is the negated mask of phase i (cos(t + pi) = -cos t; exact in Q, rounding in floats) — '
+               'needed for c < 0, which therefore requires an even number of phases',
                'default loc_pad_opts / mag_pad_opts; pad_width >= 1 for the envelope laws; time reversal is claimed for unrefined (integer) '
                'extrema only: with parabolic_extrema=True the loop test max < n or min >= 0 is not mirror-symmetric '
                '(C02.paddedExtrema_reverse_parabolic_witness, reproduced on the code by corpus case x=[0,2,1,3,2])']
@@ -40,7 +53,11 @@ RULE = ('signals of order-one amplitude from 7 families (noise, random walk, mul
         'random non-zero reals (one per sign, |c| log-uniform in [2^-8, 2^8]; 1e-9*max(1,|x|) after dividing by c) and time-reversed. '
         'Skipped and counted: a stop decision of the base run within 1e-7 relative of its threshold; a mismatch when two neighbouring samples '
         'of an iterate differ by < 1e-7*|x| (extrema detection at rounding distance); scale checks of sift / mask_sift when a column abs-sum '
-        'lies within 2^9 of the absolute sift_thresh (columns up to that one are still compared). '
+        'lies within 2^9 of the absolute sift_thresh (columns up to that one are still compared; in addition sift / mask_sift are run with '
+        'sift_thresh*|c| — the form of the theorems — and compared bit-for-bit without any band). A near tie confines the tolerance checks to the '
+        'columns of the layers before it. Every signal that reaches extrema detection in the base run is inspected by the replay: inputs, '
+        'masked inputs of every phase and layer, every iterate, every residual (exact ties of the raw input are preserved by rescaling and '
+        'reversal and do not count; ties created by arithmetic do, e.g. the exactly flat stretches of pchip envelopes between equal knots). '
         'A case is non-trivial when the base run performs at least one envelope iteration; distinct by content hash.')
 
 
@@ -146,7 +163,8 @@ class ExtremaEquiv(_Equiv):
         pad, parab = case['pad'], case['parab']
         X = np.array(x, dtype=float)
         scale = _scale(x)
-        gap = K._gap(x, scale, True) if n > 1 else math.inf
+        # neighbouring samples at rounding distance in x or in |x| (abs_peaks / combined); exact ties survive rescaling and reversal
+        gap = min(K._gap(x, scale, True), K._gap([abs(v) for v in x], scale, True)) if n > 1 else math.inf
         base = {m: self._gpe(x, pad, m, parab) for m in K.MODES}
         verdicts, corr = [], []
         ltol = K.TOL * max(1.0, n)
@@ -284,7 +302,8 @@ class EnvelopeEquiv(_Equiv):
         n = len(x)
         X = np.array(x, dtype=float)
         scale = _scale(x)
-        gap = K._gap(x, scale, True) if n > 1 else math.inf
+        # neighbouring samples at rounding distance in x or in |x| (abs_peaks / combined); exact ties survive rescaling and reversal
+        gap = min(K._gap(x, scale, True), K._gap([abs(v) for v in x], scale, True)) if n > 1 else math.inf
         base = {m: self._env(x, m, case) for m in K.EMODES}
         verdicts, corr = [], []
 
@@ -482,11 +501,26 @@ class GniEquiv(_Equiv):
         ]
 
     def generate(self, rng, tier):
+        from props import _sift as S
+        for _ in range(80 if tier == 'thorough' else 10):
+            xo = S.gen_vanishing(rng)       # extrema vanish after >= 1 mean removals (the rare exit path)
+            if xo is not None:
+                so = xo[1]
+                o = {'stop': so['stop_method'], 'step': float(so['env_step_size']), 'method': so['interp_method'], 'pad': so['pad_width'],
+                     'parab': 0, 'max_iters': so['max_iters']}
+                if o['stop'] == 'sd':
+                    o['sd_thresh'] = so['sd_thresh']
+                if o['stop'] == 'rilling':
+                    o['rilling'] = list(so['rilling_thresh'])
+                if so.get('energy_thresh') is not None:
+                    o['energy'] = float(so['energy_thresh'])
+                yield {'x': [float(v) for v in xo[0]], 'opts': o, 'creal': K.real_factors(rng), 'pow2': 'all',
+                       'corr_c': -2.0 ** rng.randint(-8, 8), 'family': 'vanishing'}
         for _ in range(1500 if tier == 'thorough' else 150):
             fam = rng.choice(K.FAMILIES)
             n = K.few_n(rng) if fam == 'few' else rng.choice([8, 16, 32, 64, 64, 200 if tier == 'thorough' else 48])
             yield {'x': K.make_signal(rng, n, fam), 'opts': K.random_opts(rng), 'creal': K.real_factors(rng),
-                   'pow2': _choose_pow2(rng, n, tier), 'family': fam}
+                   'pow2': _choose_pow2(rng, n, tier), 'corr_c': -2.0 ** rng.randint(-8, 8), 'family': fam}
 
     RUN = staticmethod(K.run_gni)
     WHAT = 'get_next_imf'
@@ -524,10 +558,16 @@ class GniEquiv(_Equiv):
         if self.REVERSE and not o.get('parab'):
             res = self.RUN(x[::-1], o)
             verdicts.append(K.verdict_reverse(self.WHAT, base, res, scale, mg))
+        verdicts += self._extra_verdicts(case, x, X, o, base, scale, mg)
         fails, skips = K.summarise(verdicts)
         out = {'fails': fails, 'skips': skips, 'desync': desync, 'margins': mg.to_json(), 'info': info,
                'base': base['kind'] if base['kind'] == 'ok' else 'error:' + base['error'],
                'nontrivial': base['kind'] == 'ok' and any(e not in ('no-extrema',) for e in info['exits'][:1])}
+        try:
+            out['corr'] = self._corr_impl(case, x, o, base, info)
+        except Exception as e:  # noqa  (a harness problem while building oracle tables is a broken correspondence, with detail)
+            out['corr'] = None
+            out['corr_error'] = '%s: %s' % (type(e).__name__, str(e)[:160])
         if base['kind'] == 'ok':
             out['columns'] = int(base['imf'].shape[1])
             out['flag'] = base.get('flag')
@@ -535,10 +575,50 @@ class GniEquiv(_Equiv):
                 out['imf'] = [[float(v) for v in col] for col in base['imf'].T]
         return out
 
+    # -- model correspondence on transformed inputs (phase 2) ---------------------------------------------------
+    @staticmethod
+    def _corr_c(case):
+        return float(case.get('corr_c', -0.5))
+
+    def _corr_wanted(self, case, o, info):
+        its = [i for i in info.get('iters', []) if i]
+        return not o.get('parab') and len(case['x']) >= 3 and (max(its) if its else 0) <= C.MAX_ITERS_FOR_CORR \
+            and len(its) <= 8
+
+    def _corr_impl(self, case, x, o, base, info):
+        if not self._corr_wanted(case, o, info):
+            return None
+        return C.gni_impl(x, o, C.transforms(case, self._corr_c(case)))
+
+    def _extra_verdicts(self, case, x, X, o, base, scale, mg):
+        return []
+
+    def _corr_ops(self, case, out):
+        return C.gni_ops(out['corr'])[0]
+
+    def _corr_compare(self, case, out, results):
+        return C.gni_compare(out['corr'], results, _scale(case['x']), tie=out['margins']['first_tie'] is not None)
+
+    def ops(self, case, out):
+        if isinstance(out, ImplError) or not out.get('corr'):
+            return []
+        return self._corr_ops(case, out)
+
+    def compare(self, case, out, results):
+        if isinstance(out, ImplError):
+            return None
+        if out.get('corr_error'):
+            return 'harness could not build the oracle tables for the model: ' + out['corr_error']
+        d = self._corr_compare(case, out, results) if out.get('corr') else None
+        if d and not d.startswith('skip:'):
+            return d
+        return _Equiv.compare(self, case, out, results) or d
+
     def tags(self, case, out):
         t = ['family=' + case.get('family', 'corpus'), _n_bucket(len(case['x']))] + _opts_tags(case['opts'])
         if isinstance(out, ImplError):
             return t + ['raises']
+        t.append('model-ops=' + ('yes' if out.get('corr') else 'no'))
         t.append('base=' + out['base'])
         t += ['skip:' + s for s in out['skips']]
         for e in out['info']['exits'][:1]:
@@ -590,7 +670,8 @@ class SiftEquiv(GniEquiv):
             if rng.random() < 0.15:
                 # a vanishing threshold only together with a cap: without one a pchip sift keeps peeling rounding noise (C03's business)
                 o['sift_thresh'] = rng.choice([1e-6, 1e-3] if o['max_imfs'] is None else [1e-12, 1e-6, 1e-3, 0.0])
-            yield {'x': K.make_signal(rng, n, fam), 'opts': o, 'creal': K.real_factors(rng), 'pow2': _choose_pow2(rng, n, tier), 'family': fam}
+            yield {'x': K.make_signal(rng, n, fam), 'opts': o, 'creal': K.real_factors(rng), 'pow2': _choose_pow2(rng, n, tier),
+                   'corr_c': -2.0 ** rng.randint(-8, 8), 'family': fam}
 
     def _replay(self, x, o, base, scale):
         mg = K.Margins()
@@ -599,6 +680,31 @@ class SiftEquiv(GniEquiv):
 
     def _thr(self, o):
         return o.get('sift_thresh', 1e-8)
+
+    def _extra_verdicts(self, case, x, X, o, base, scale, mg):
+        """the theorem's own form: sift(c*x, sift_thresh=|c|*thr) == c*sift(x, sift_thresh=thr), bit-for-bit, no band"""
+        thr = self._thr(o)
+        p2 = _pow2_for(case)
+        cs = {self._corr_c(case), p2[len(case['x']) % len(p2)], p2[(7 * len(case['x']) + 3) % len(p2)]}
+        if base['kind'] == 'ok' and K.band_column(base['imf'], thr) is not None:
+            cs |= set(p2)
+        out = []
+        for c in sorted(cs):
+            res = self.RUN([float(v) for v in c * X], dict(o, sift_thresh=abs(c) * thr))
+            out.append(K.verdict_scale(self.WHAT, c, base, res, scale, mg, True, thr=None, cls='pow2-threshold-scaled'))
+        return out
+
+    def _corr_impl(self, case, x, o, base, info):
+        if not self._corr_wanted(case, o, info) or base['kind'] != 'ok' or base['imf'].shape[1] > 6:
+            return None
+        tfs = [('id', 1.0), ('pow2', self._corr_c(case)), ('rev', None)]
+        return C.sift_impl(x, o, tfs)
+
+    def _corr_ops(self, case, out):
+        return C.sift_ops(out['corr'])[0]
+
+    def _corr_compare(self, case, out, results):
+        return C.sift_compare(out['corr'], results, _scale(case['x']), tie=out['margins']['first_tie'] is not None)
 
     def tags(self, case, out):
         t = GniEquiv.tags(self, case, out)
@@ -622,6 +728,12 @@ class MaskEquiv(GniEquiv):
             {'x': x, 'opts': dict(sd, mask=mk), 'creal': [3.7, -0.31], 'pow2': [-1.0, 2.0, -0.125, 256.0]},
             {'x': x, 'opts': dict(sd, mask=dict(mk, mode='ratio_sig', nphases=3, freqs=0.2)), 'creal': [3.7, -0.31], 'pow2': [-1.0, 2.0, -0.125]},
             {'x': x, 'opts': dict(sd, mask=dict(mk, amp=[2, 1.5, 1], freqs=[0.3, 0.12, 0.05], nphases=2)), 'creal': [3.7, -0.31], 'pow2': [-1.0, 0.5]},
+            # past false alarm of this check: the unmasked first IMF of this quantised signal has a sample that is exactly 0 (0.25 - 0.25),
+            # which sign() counts as two crossings; after rescaling by a real factor it is +-1e-19 and the 'zc' mask frequency changes
+            {'x': [0.75, 0.25, 0.0, -0.25, -1.0, -0.5, 1.25, 1.5, -0.25, -1.25, -0.5, 0.25, 0.25, 0.75, 1.0, -0.5],
+             'opts': {'stop': 'sd', 'step': 1.0, 'method': 'mono_pchip', 'pad': 2, 'parab': 0, 'sd_thresh': 0.2, 'max_iters': 1000,
+                      'mask': {'amp': [1.0, 0.5], 'mode': 'ratio_sig', 'freqs': 'zc', 'step_factor': 2, 'max_imfs': 2, 'nphases': 1}},
+             'creal': [0.010531875087092675, -2.5178259588538365], 'pow2': 'all', 'family': 'plateau'},
         ]
 
     def generate(self, rng, tier):
@@ -639,7 +751,8 @@ class MaskEquiv(GniEquiv):
                          'freqs': 'zc' if fr == 'zc' else rng.uniform(0.1, 0.45) if fr == 'float' else [0.4 / 2 ** i for i in range(k)],
                          'step_factor': rng.choice([2, 3]), 'max_imfs': k, 'nphases': rng.choice([1, 2, 3, 4, 4, 6, 8])}
             p2 = 'all' if tier == 'thorough' and n <= 64 else [-1.0] + rng.sample([c for c in K.POW2 if abs(c) != 1.0], 9)
-            yield {'x': K.make_signal(rng, n, fam), 'opts': o, 'creal': K.real_factors(rng), 'pow2': p2, 'family': fam}
+            yield {'x': K.make_signal(rng, n, fam), 'opts': o, 'creal': K.real_factors(rng), 'pow2': p2,
+                   'corr_c': 2.0 ** rng.randint(-8, 8), 'family': fam}
 
     def _replay(self, x, o, base, scale):
         mg = K.Margins()
@@ -667,6 +780,37 @@ class MaskEquiv(GniEquiv):
         return K.verdict_scale(self.WHAT, c, base, res, scale, mg, False, thr=self._thr(o), cls='negative-even-nphases')
 
     REVERSE = False        # the masks cos(2 pi z t + phase) are not mirror-symmetric: no reversal law is claimed for mask_sift
+
+    def _extra_verdicts(self, case, x, X, o, base, scale, mg):
+        """mask_sift(c*x, sift_thresh=|c|*thr) against c*mask_sift(x, sift_thresh=thr): the theorems' own form"""
+        thr = self._thr(o)
+        p2 = [c for c in _pow2_for(case)]
+        cs = {abs(self._corr_c(case)), p2[len(case['x']) % len(p2)]}
+        if base['kind'] == 'ok' and K.band_column(base['imf'], thr) is not None:
+            cs |= set(p2)
+        out = []
+        for c in sorted(cs):
+            res = self.RUN([float(v) for v in c * X], dict(o, sift_thresh=abs(c) * thr))
+            if c > 0:
+                out.append(K.verdict_scale(self.WHAT, c, base, res, scale, mg, True, thr=None, cls='pow2-threshold-scaled'))
+            elif o['mask']['nphases'] % 2 == 0:
+                out.append(K.verdict_scale(self.WHAT, c, base, res, scale, mg, False, thr=None,
+                                           cls='negative-even-nphases-threshold-scaled'))
+        return out
+
+    def _corr_impl(self, case, x, o, base, info):
+        if o.get('parab') or base['kind'] != 'ok' or len(x) > 64:
+            return None
+        tfs = [('id', 1.0), ('pow2', abs(self._corr_c(case)))]
+        if o['mask']['nphases'] % 2 == 0:
+            tfs.append(('neg', -1.0))
+        return {'freqs': base['freqs'], 'tables': C.mask_impl(x, o, base, tfs)}
+
+    def _corr_ops(self, case, out):
+        return C.mask_ops(case['opts'], out['corr']['freqs'], out['corr']['tables'])
+
+    def _corr_compare(self, case, out, results):
+        return C.mask_compare(case['opts'], out['corr']['tables'], results, _scale(case['x']), tie=out['margins']['first_tie'] is not None)
 
     def tags(self, case, out):
         t = GniEquiv.tags(self, case, out)
